@@ -96,8 +96,8 @@ func (c14) Exec(r *kit.Run) {
 			created++
 		} else {
 			op.I = g.Choose(created)
-			kinds := []string{"assert", "retract", "op", "flag", "conv", "consult", "write-user", "write-cur", "out-alt", "out-user", "intern", "cur-open", "cur-step", "cur-close", "read-input", "cur-open-flags"}
-			op.Op = kinds[g.Weighted(5, 2, 5, 4, 3, 2, 4, 4, 1, 1, 2, 2, 6, 1, 2, 2)]
+			kinds := []string{"assert", "retract", "op", "flag", "conv", "consult", "write-user", "write-cur", "out-alt", "out-user", "intern", "cur-open", "cur-step", "cur-close", "read-input", "cur-open-flags", "bad-load"}
+			op.Op = kinds[g.Weighted(5, 2, 5, 4, 3, 2, 4, 4, 1, 1, 2, 2, 6, 1, 2, 2, 2)]
 			switch op.Op {
 			case "assert":
 				op.Arg = fmt.Sprintf("t%d", n)
@@ -283,6 +283,17 @@ func (c14) Exec(r *kit.Run) {
 				goal = "consult(lib)"
 				m.who = fmt.Sprintf("i%d", op.I)
 				mark("who", op.I)
+			case "bad-load":
+				// a text that is abandoned with clauses read but not installed: it defines nothing here (C20) and, above all,
+				// nothing anywhere else, now or at anybody's next load
+				err := it.p.Exec(fmt.Sprintf("fact(stale_i%d). who(stale_i%d). fact(", op.I, op.I))
+				r.Logf("%d interpreter %d: Exec of a text with a syntax error -> %s", n, op.I, kit.CanonErr(err))
+				if err == nil {
+					r.Fail("wrong-answer", "operation-result:bad-load", "interpreter %d: a text ending in the middle of a clause loaded without error", op.I)
+					return
+				}
+				r.Probe("abandoned-load")
+				goal = "true"
 			case "write-user":
 				goal = "write(user_output, " + op.Arg + ")"
 				m.sink += op.Arg
